@@ -50,16 +50,22 @@ class _Reader:
 
 
 class _Writer:
+    """a file opened for writing: it exists (empty) from the moment it is created; what is written sits in the
+    process's buffer and reaches the file - the inode, wherever a rename has moved it meanwhile - when it is closed"""
+
     def __init__(self, fs, name):
         self.fs = fs
         self.name = name
         self.chunks = []
+        self.inode = []
+        fs.files[name] = self.inode
 
     def __enter__(self):
         return self
 
     def __exit__(self, *a):
-        self.fs.files[self.name] = self.chunks
+        self.inode.extend(self.chunks)
+        self.chunks = []
         return False
 
     def write(self, s):
